@@ -169,6 +169,8 @@ def main(argv=None):
     if walls:
         print(f"  per-run wall: median={walls[len(walls)//2]:.2f}s p90={walls[int(len(walls)*0.9)]:.2f}s max={walls[-1]:.2f}s sum={sum(walls):.0f}s "
               f"generator_defects={sum(1 for r in good if r.get('generator_defect'))}", flush=True)
+    slow = sorted(good, key=lambda r: -r.get("wall_s", 0))[:3]
+    print("  slowest: " + ", ".join(f"seed {r.get('seed')} {r.get('wall_s')}s tasks={r.get('stats', {}).get('tasks')}" for r in slow), flush=True)
     seen_notes = set()
     for r in good:
         for nt in r.get("notes") or []:
